@@ -86,6 +86,23 @@ mutual
     | .infinite _ => false
 end
 
+mutual
+  /-- the keys of every known map are strictly increasing (what a `BTreeMap` guarantees). -/
+  def Kind.SortedK : Kind → Bool
+    | .mk _ a o => OCol.SortedK a && OCol.SortedK o
+  def OCol.SortedK : OCol → Bool
+    | .none => true
+    | .some c => Col.SortedK c
+  def Col.SortedK : Col → Bool
+    | .mk k u => KList.SortedKeys k && KList.SortedK k && Unknown.SortedK u
+  def KList.SortedK : KList → Bool
+    | .nil => true
+    | .cons _ v m => Kind.SortedK v && KList.SortedK m
+  def Unknown.SortedK : Unknown → Bool
+    | .exact k => Kind.SortedK k
+    | .infinite _ => true
+end
+
 namespace C19
 open Spec
 
